@@ -84,7 +84,10 @@ class IntervalTree:
         self.root = self._build_tree(indexed_intervals[order])
 
     def __contains__(self, item):
-        if isinstance(item, (tuple, list)):
+        # An interval may also come as array (like the rows of the array
+        # given to query), a 0-d array is a point:
+        if isinstance(item, (tuple, list)) \
+                or (isinstance(item, np.ndarray) and item.ndim):
             return bool(self._query(item, self.root, check_extreme=True))
         else:
             return bool(self._query_point(item, self.root, check_extreme=True))
